@@ -167,8 +167,12 @@ def to_model_json(t):
 def mutate_tokens(rng: random.Random, toks):
     """single-fault corruption of a well-formed token list"""
     toks = list(toks)
-    k = rng.randrange(9)
+    k = rng.randrange(10)
     i = rng.randrange(len(toks))
+    if k == 9:
+        # unrecognised text BEHIND the last token (in front of it / between tokens: 'stray-char')
+        toks.append(rng.choice(['!', '@', '?', '~', '`', '\\', '.', '@@', '! ?', '~1']))
+        return toks, 'trailing-garbage'
     if k == 0 and len(toks) > 1:
         del toks[i]
         return toks, 'drop-token'
